@@ -51,7 +51,91 @@ type wgOutcome struct {
 	Roots  []string `json:"roots"`
 	Forced bool     `json:"forced"`
 	Count  int      `json:"count"`
+	Events []wgEvent `json:"events,omitempty"` // steps of the weight assignment as they returned (first run with this outcome)
 	key    string
+}
+
+// wgEvent is one call of the hook VerifOnWeightStep, projected the way spec/WGraph.tla (section 4b) holds the same point of
+// the algorithm: what the step returned and the weights / wildcards of the node or edge concerned at that moment.
+type wgEvent struct {
+	K   string   `json:"k"` // edge | node | root
+	ID  string   `json:"id"`
+	Pos int      `json:"pos"` // 1-based position of the edge in its source's list (edge events)
+	W   [][]any  `json:"w"`   // [tag, key, weight]
+	WC  []string `json:"wc"`
+	Cyc []string `json:"cyc"`
+	Err string   `json:"err"`
+	NW  [][]any  `json:"nw"` // root events: the whole weight state (empty otherwise)
+	EW  [][]any  `json:"ew"`
+	NWC [][]any  `json:"nwc"`
+	EWC [][]any  `json:"ewc"`
+}
+
+func errClass(err error) string {
+	switch {
+	case err == nil:
+		return "none"
+	case errors.Is(err, graph.ErrModelCycle):
+		return "modelcycle"
+	case errors.Is(err, graph.ErrTupleCycle):
+		return "tuplecycle"
+	case errors.Is(err, graph.ErrInvalidModel):
+		return "invalid"
+	}
+	return "other"
+}
+
+func weightRows(w map[string]int, cn map[string]string) [][]any {
+	rows := [][]any{}
+	for k, v := range w {
+		tag, key := splitKey(k)
+		if tag == "R" {
+			key = cn[key]
+		}
+		rows = append(rows, []any{tag, key, absW(v)})
+	}
+	sortRows(rows)
+	return rows
+}
+
+func canonList(xs []string, cn map[string]string) []string {
+	out := []string{}
+	for _, x := range xs {
+		if cn != nil {
+			x = cn[x]
+		}
+		out = append(out, x)
+	}
+	sort.Strings(out)
+	return out
+}
+
+// fullState is outcomeOf's projection of weights and wildcards, whatever the verdict (used inside root events).
+func fullState(g *graph.WeightedAuthorizationModelGraph, cn map[string]string) (nw, ew, nwc, ewc [][]any) {
+	nw, ew, nwc, ewc = [][]any{}, [][]any{}, [][]any{}, [][]any{}
+	for id, n := range g.GetNodes() {
+		for _, r := range weightRows(n.GetWeights(), cn) {
+			nw = append(nw, append([]any{cn[id]}, r...))
+		}
+		for _, t := range n.GetWildcards() {
+			nwc = append(nwc, []any{cn[id], t})
+		}
+	}
+	for from, es := range g.GetEdges() {
+		for i, e := range es {
+			for _, r := range weightRows(e.GetWeights(), cn) {
+				ew = append(ew, append([]any{cn[from], i + 1}, r...))
+			}
+			for _, t := range e.GetWildcards() {
+				ewc = append(ewc, []any{cn[from], i + 1, t})
+			}
+		}
+	}
+	sortRows(nw)
+	sortRows(ew)
+	sortRows(nwc)
+	sortRows(ewc)
+	return
 }
 
 func nodeTypeName(t graph.NodeType) string {
@@ -226,7 +310,11 @@ type wgRun struct {
 	cn      map[string]string
 	outcome *wgOutcome
 	roots   []string
+	events  []wgEvent
 }
+
+// recordWGEvents switches the event hook on for the builds of this process (wg-replay -events)
+var recordWGEvents bool
 
 var hookMu sync.Mutex
 
@@ -267,8 +355,32 @@ func buildWGWith(model *openfgav1.AuthorizationModel, forced []string, shared bo
 			rawRoots = append(rawRoots, id)
 		}
 	}
+	if recordWGEvents {
+		graph.VerifOnWeightStep = func(wg *graph.WeightedAuthorizationModelGraph, kind string, node string, edge *graph.WeightedAuthorizationModelEdge, cycles []string, err error) {
+			n := wg.GetNodes()[node]
+			ev := wgEvent{K: kind, ID: run.cn[node], Cyc: canonList(cycles, run.cn), Err: errClass(err), NW: [][]any{}, EW: [][]any{}, NWC: [][]any{}, EWC: [][]any{}}
+			switch kind {
+			case "edge":
+				for i, e := range wg.GetEdges()[node] {
+					if e == edge {
+						ev.Pos = i + 1
+					}
+				}
+				ev.W, ev.WC = weightRows(edge.GetWeights(), run.cn), canonList(edge.GetWildcards(), nil)
+			case "node":
+				ev.W, ev.WC = weightRows(n.GetWeights(), run.cn), canonList(n.GetWildcards(), nil)
+			case "root":
+				if n.GetNodeType() == graph.SpecificType || n.GetNodeType() == graph.SpecificTypeWildcard {
+					return // the loop of AssignWeights also passes over terminal nodes; nothing is computed for them
+				}
+				ev.W, ev.WC = weightRows(n.GetWeights(), run.cn), canonList(n.GetWildcards(), nil)
+				ev.NW, ev.EW, ev.NWC, ev.EWC = fullState(wg, run.cn)
+			}
+			run.events = append(run.events, ev)
+		}
+	}
 	defer func() {
-		graph.VerifOnStructure, graph.VerifOnRoot, graph.VerifRootOrder = nil, nil, nil
+		graph.VerifOnStructure, graph.VerifOnRoot, graph.VerifRootOrder, graph.VerifOnWeightStep = nil, nil, nil, nil
 	}()
 	var g *graph.WeightedAuthorizationModelGraph
 	var err error
@@ -286,6 +398,7 @@ func buildWGWith(model *openfgav1.AuthorizationModel, forced []string, shared bo
 		run.cn = map[string]string{}
 	}
 	run.outcome = outcomeOf(g, err, run.cn, panicked)
+	run.outcome.Events = run.events
 	if forced != nil {
 		run.outcome.Roots, run.outcome.Forced = forced, true
 	} else {
@@ -463,7 +576,9 @@ func wgReplay(args []string) error {
 	perm := fs.Bool("perm", false, "also run type-definition and operand permutations")
 	conc := fs.Int("conc", 0, "concurrent builds per model")
 	echo := fs.Bool("echo", false, "echo the abstract model into the observation")
+	events := fs.Bool("events", false, "record the steps of the weight assignment (hook VerifOnWeightStep) of every hooked build")
 	fs.Parse(args)
+	recordWGEvents = *events
 	rng := rand.New(rand.NewSource(*seed))
 	w, err := newNDWriter(*out)
 	if err != nil {
